@@ -122,9 +122,9 @@ func (m *ManualClock) NowNano() int64 {
 	return n
 }
 func (m *ManualClock) Tick(time.Duration) <-chan time.Time { return nil }
-func (m *ManualClock) Set(n int64)                       { m.now.Store(n) }
-func (m *ManualClock) Now() int64                        { return m.now.Load() }
-func (m *ManualClock) Advance(d int64) int64             { return m.now.Add(d) }
+func (m *ManualClock) Set(n int64)                         { m.now.Store(n) }
+func (m *ManualClock) Now() int64                          { return m.now.Load() }
+func (m *ManualClock) Advance(d int64) int64               { return m.now.Add(d) }
 
 // Executor is the harness-owned executor: inline or a deferred FIFO queue.
 type Executor struct {
